@@ -50,7 +50,8 @@ def cases(tier, seed):
             r = rng.random()
             if r < 0.6:
                 for _ in range(rng.randint(1, 2)):
-                    g["cs"].append(_square(rng.randint(-200, 300), rng.randint(-300, 500), rng.randint(10, 400)))
+                    # (one in eight: a degenerate outline -- all points coincide -- which still has a position)
+                    g["cs"].append(_square(rng.randint(-200, 300), rng.randint(-300, 500), rng.choice([0] + [rng.randint(10, 400)] * 7)))
             elif r < 0.8 and flavor == "tt" and i > 0 and glyphs[names[0]]["cs"]:
                 g["comps"].append({"b": names[0], "m": [64, 0, 0, 64], "d": [rng.randint(-100, 100) * P, rng.randint(-100, 100) * P]})
             if rng.random() < 0.6:
@@ -65,17 +66,29 @@ def cases(tier, seed):
                 ufo["verticalOrigin"] = {nm: rng.choice([880, 880, 900, 750.5, 0, 0.0, -120]) for nm in names if rng.random() < 0.7}
         if rng.random() < 0.3:
             glyphs[".notdef"] = {"cs": [], "comps": [], "anchors": [], "w": 0, "h": 0, "u": []}
+        kwargs = {}
+        if flavor == "cff" and any(all(p[:2] == c[0][:2] for p in c) for g in glyphs.values() for c in g["cs"]):
+            kwargs["optimizeCFF"] = 0      # (with charstring optimisation on: known finding F-C04-2, witnessed by a fixed case below)
         out.append({"cid": f"c04-{seed}-{k}", "lib": rng.choice(["ufoLib2", "defcon"]), "flavor": flavor, "ufo": ufo,
-                    "vertical": vertical, "kwargs": {}})
+                    "vertical": vertical, "kwargs": kwargs})
     # degenerate sources: no glyph at all (only the synthesised .notdef remains)
     for flavor in ("cff", "tt"):
         out.append({"cid": f"c04-{seed}-empty-{flavor}", "lib": "ufoLib2", "flavor": flavor,
                     "ufo": {"glyphs": {}, "info": {"unitsPerEm": 1000, "ascender": 800, "descender": -200}},
                     "vertical": False, "kwargs": {}})
+    # the fixed witness of F-C04-2: a single-point outline away from the origin, CFF with the default charstring optimisation
+    out.append({"cid": f"c04-{seed}-degenerate-cff", "lib": "ufoLib2", "flavor": "cff", "vertical": False, "kwargs": {},
+                "ufo": {"glyphs": {"a": {"cs": [_square(100, 0, 300)], "comps": [], "anchors": [], "w": 500 * P, "h": 0, "u": [0x61]},
+                                   "dot": {"cs": [_square(-40, 900, 0)], "comps": [], "anchors": [], "w": 300 * P, "h": 0, "u": [0x2E]}},
+                        "info": {"unitsPerEm": 1000, "ascender": 800, "descender": -200}}})
     return out
 
 
 def classify(rec, pfail, mfail, extra, rep):
+    if rec["tid"].endswith("-degenerate-cff") and pfail in ("lsb", "hhea", "font-box"):
+        rep.known("F-C04-2", "CFF with charstring optimisation: a glyph whose outline is a single point loses that outline in the "
+                             "charstring while hmtx lsb / hhea / head still account for the point")
+        return "known:F-C04-2"
     if pfail != "none" and font_exec.isoadobe_prefix_failure(rec):
         rep.known("F-C04-1", "compileOTF (CFF 1, cffsubr) of a font whose glyph order is a prefix of the ISOAdobe charset "
                              "(e.g. only .notdef, or .notdef + space) returns a font that cannot be saved "
@@ -87,7 +100,7 @@ def classify(rec, pfail, mfail, extra, rep):
 def execute(case):
     # every fourth case enters through a designspace function instead of compileTTF / compileOTF
     k = sum(ord(ch) for ch in case["cid"])
-    if "via" not in case and k % 4 == 0 and not case["cid"].count("empty"):
+    if "via" not in case and k % 4 == 0 and not case["cid"].count("empty") and not case["cid"].count("degenerate"):
         case = dict(case, via="vf" if (case["flavor"] == "tt" and k % 8 == 0) else "interp")
     return [font_exec.font_record(case)]
 
